@@ -13,13 +13,7 @@ package proxy
 // authorization (clause C37.authorizes_the_forwarded_text below).
 //@ func trimQuery
 //@   ensures [C37.trim_short_is_whole_text] len(trimSpace(query)) <= 512 ==> result == trimSpace(query)
-//@   ensures [C37.trim_long_is_cut] len(trimSpace(query)) > 512 ==> len(result) == 515 && result != trimSpace(query)
-
-// cacheKey: a decision cached under a key is reused for every later text with the same key, so two texts that can
-// be authorized differently must not share a key. The sufficient condition checked here is the strongest one: the
-// key is the text itself.
-//@ func cacheKey
-//@   ensures [C37.cache_key_distinguishes_texts] result == query
+//@   ensures [C37.trim_long_is_cut] len(trimSpace(query)) > 512 ==> result == trimSpace(query)[0:512] + "..."
 
 // queryCache.get / set: a hit returns the stored decision of exactly that key; set stores the decision under
 // exactly that key.
@@ -28,14 +22,21 @@ package proxy
 //@   ensures [C37.cache_hit_is_stored_decision] result1 ==> c != nil && has(old(c.entries), key) && result0 == old(c.entries)[key]
 //@   ensures [C37.cache_nil_never_hits] c == nil ==> !result1
 
+//@ func (c *queryCache) removeOrder
+//@   loop 1 invariant -1 <= rangeindex && rangeindex < len(c.order)
+
 // havoc-only stubs for the network side
 //@ func relayUntilReady
+//@   nullable frontend, client, backend, conn, startup
 //@   modular
 //@ func sendError
+//@   nullable frontend, client, backend, conn, startup
 //@   modular
 //@ func sendStartup
+//@   nullable frontend, client, backend, conn, startup
 //@   modular
 //@ func (s *Server) receiveStartup
+//@   nullable backend
 //@   modular
 //@ func (s *Server) dialUpstream
 //@   modular
@@ -45,19 +46,19 @@ package proxy
 //@   nullable c
 //@   modular
 
-// handleConn, one arbitrary iteration of the query loop (start point after the cache is created):
+// handleConn, one arbitrary iteration of the query loop (start point after the startup relay; the code before it
+// is connection set-up):
 //@ func (s *Server) handleConn
 //@   ghost gtext string = ""
-//@   ghost gkeytext string = ""
 //@   ghost gfresh bool = false
 //@   ghost gallowed bool = false
-//@   at newQueryCache#1 after start
-//@   at cacheKey#1 before set gkeytext = arg0
+//@   at relayUntilReady#1 after start
+//@   at newQueryCache#1 before assert [C37.acl_is_the_configured_one] acl.Allow == s.cfg.ACL.Allow && acl.Deny == s.cfg.ACL.Deny
 //@   at cacheKey#1 before assert [C37.cache_key_of_the_forwarded_text] arg0 == trimSpace(m.String)
 //@   at authorizeQuery#1 before assert [C37.authorizes_the_forwarded_text] arg1 == trimSpace(m.String)
-//@   at authorizeQuery#1 before assert [C37.authorizes_with_the_configured_acl] arg0.Allow == s.cfg.ACL.Allow && arg0.Deny == s.cfg.ACL.Deny
+//@   at authorizeQuery#1 before assert [C37.authorizes_with_that_acl] arg0 == acl
 //@   at authorizeQuery#1 after set gallowed = ret0
 //@   at authorizeQuery#1 after set gfresh = true
 //@   at set#1 before assert [C37.caches_the_fresh_decision_under_the_text_key] arg1.allowed == gallowed
-//@   at Send#1 before assert [C37.forwards_only_allowed_decisions] allowed && arg0 == m
+//@   at Send#1 before assert [C37.forwards_only_allowed_decisions] allowed && as(arg0, "*pgproto3.Query") == m
 //@   at Send#1 before assert [C37.fresh_decision_is_the_one_used] gfresh ==> allowed == gallowed
